@@ -6,7 +6,27 @@
     the monitor must hold. *)
 From KaiV Require Export Run.Cycle.
 
-Inductive c01case := FCycle (k : ccase) | FFault (k : ccase).
+(** How the snapshot classifies a pod (pod_info.getTaskStatus) and whether
+    NodeInfo.AddTasksToNode accounts it on the node it names. *)
+Inductive phase := PhPending | PhRunning | PhSucceeded | PhFailed | PhUnknown.
+Definition task_status (ph : phase) (deleting on_node has_br gated : bool) : status :=
+  match ph with
+  | PhRunning => if deleting then Releasing else Running
+  | PhPending => if deleting then Releasing
+                 else if on_node then Bound
+                 else if has_br then Binding
+                 else if gated then Gated else Pending
+  | PhUnknown => Unknown
+  | PhSucceeded => Succeeded
+  | PhFailed => Failed
+  end.
+(** a pod that sits on a node, or is being bound to one, and has not finished *)
+Definition occupies (ph : phase) (on_node has_br : bool) : bool :=
+  (on_node || has_br) && match ph with PhPending | PhRunning => true | _ => false end.
+Record scase := mkSC { sc_phase : phase; sc_del : bool; sc_node : bool; sc_br : bool; sc_gated : bool;
+                       sc_status : status; sc_accounted : bool }.
+
+Inductive c01case := FCycle (k : ccase) | FFault (k : ccase) | FStatus (c : scase).
 
 Definition guards_ok (k : ccase) : bool :=
   match replay (c_tasks k) (c_nodes k) (c_calls k) with
@@ -19,11 +39,20 @@ Definition guards_ok (k : ccase) : bool :=
     un-emitted operations stay applied.  Only successful BINDS must stay admissible w.r.t.
     the devices and the monitor must hold. *)
 Definition model_agrees (c : c01case) : bool :=
-  match c with FCycle k => cycle_agrees k | FFault k => true end.
+  match c with
+  | FCycle k => cycle_agrees k
+  | FFault k => true
+  | FStatus c => status_eqb (task_status (sc_phase c) (sc_del c) (sc_node c) (sc_br c) (sc_gated c)) (sc_status c)
+                 && Bool.eqb (sc_accounted c) ((sc_node c || sc_br c) && active_used (sc_status c))
+  end.
 Definition monitor_ok (c : c01case) : bool :=
-  match c with FCycle k => c01_ok k | FFault k => c01_ok k end.
+  match c with
+  | FCycle k => c01_ok k
+  | FFault k => c01_ok k
+  | FStatus c => negb (occupies (sc_phase c) (sc_node c) (sc_br c)) || sc_accounted c
+  end.
 Definition run_mismatches (cs : list (nat * c01case)) : list nat := failing (fun k => negb (model_agrees k)) cs.
 Definition run_monitor (cs : list (nat * c01case)) : list nat := failing (fun k => negb (monitor_ok k)) cs.
 Definition run_flags (cs : list (nat * c01case)) : list (nat * list nat) :=
   filter (fun p => negb (Nat.eqb (List.length (snd p)) 0))
-         (map (fun c => (fst c, match snd c with FCycle k => cycle_flags k | FFault _ => [] end)) cs).
+         (map (fun c => (fst c, match snd c with FCycle k => cycle_flags k | _ => [] end)) cs).
